@@ -20,11 +20,19 @@ from .common import INT_FILL, enc_ints, enc_pairs, enc_rows
 REF_MAX_FACES = 12
 
 
-def observe(g):
-    NF = g.node_face_connectivity.values
-    EF = g.edge_face_connectivity.values
-    FF = np.asarray(g.face_face_connectivity.values)
-    H = np.asarray(g.hole_edge_indices.values)
+READS = ("node_face", "edge_face", "face_face", "holes")
+
+
+def observe(g, first=None):
+    """read the four incidence variables of the grid, `first` first (each getter may build and cache others: the
+    first access decides which code path fills the caches)"""
+    got = {}
+    for name in ([first] if first else []) + [r for r in READS if r != first]:
+        if name == "holes":
+            got[name] = np.asarray(g.hole_edge_indices.values)
+        else:
+            got[name] = np.asarray(getattr(g, name + "_connectivity").values)
+    NF, EF, FF, H = got["node_face"], got["edge_face"], got["face_face"], got["holes"]
     return dict(
         nodeFace=[[int(x) for x in r] for r in NF],
         edgeFace=[(int(a), int(b)) for a, b in EF],
@@ -41,6 +49,14 @@ def observe(g):
     )
 
 
+def first_read_of(key):
+    """which variable is read first on this grid: a function of the case (all four occur across a run) that does
+    not consume the case generator's random stream"""
+    import zlib
+
+    return READS[zlib.crc32(repr(key).encode()) % 4]
+
+
 def enc_in(n, w, t, FE, N, n_edge):
     return " ".join([str(n), str(w), enc_rows(t), enc_rows(FE), enc_ints(N), str(n_edge)])
 
@@ -49,14 +65,17 @@ def msets(table):
     return [sorted(x for x in r if x != INT_FILL) for r in table]
 
 
-def judge_grid(ctx, g, inp, tag, key, prefix="C03/"):
+def judge_grid(ctx, g, inp, tag, key, prefix="C03/", first=None):
     d = ctx.driver
     t = [[int(x) for x in r] for r in g.face_node_connectivity.values]
     FE = [[int(x) for x in r] for r in g.face_edge_connectivity.values]
     N = [int(x) for x in g.n_nodes_per_face.values]
     n, w, n_edge = int(g.n_node), int(g.n_max_face_nodes), int(g.n_edge)
+    first = first or inp.get("first_read") or first_read_of(key)
+    inp = dict(inp, first_read=first)
+    ctx.hit("first-read:" + first)
     try:
-        o = observe(g)
+        o = observe(g, first)
     except Exception as e:
         ctx.case(key, sample=inp)
         ctx.fail(f"{prefix}raises/{type(e).__name__}", f"incidence construction raises {type(e).__name__}: {e}", inp)
@@ -111,12 +130,62 @@ def judge_grid(ctx, g, inp, tag, key, prefix="C03/"):
             ctx.hit("differs-from-model-in-free-order-only")
 
 
-def judge(ctx, m, tag):
+def judge(ctx, m, tag, first=None):
     import uxarray as ux
 
     inp = dict(mesh=m.describe(), table=m.rows(), tag=tag)
+    if first:
+        inp["first_read"] = first
     g = meshes.to_grid(m, ux)
-    judge_grid(ctx, g, inp, tag, (tag, m.rows()))
+    judge_grid(ctx, g, inp, tag, (tag, m.rows()) + ((first,) if first else ()), first=first)
+
+
+def disjoint_union(ms, extra_nodes=0, kind="union"):
+    """several meshes side by side as ONE grid (disconnected components), plus nodes no face uses"""
+    faces, xyz, off = [], [], 0
+    for m in ms:
+        faces += [[v + off for v in f] for f in m.faces]
+        xyz.append(m.xyz)
+        off += m.n_node
+    for i in range(extra_nodes):
+        xyz.append(np.array([meshes._ll(160.0 - 7 * i, -60.0 + 5 * i)]))
+    return meshes.AMesh(faces, np.vstack(xyz), False, kind)
+
+
+def patches_stream(ctx):
+    """NON-closed meshes on which the Euler count V - E + F takes the values 1, 2, 3, ... : k = 1, 2, 3 disconnected
+    open patches / isolated faces (V - E + F = k), an annulus (0) with 0..2 unused nodes (0, 1, 2); every mesh is
+    judged four times on a FRESH grid, each of hole_edge_indices / node_face / edge_face / face_face read first"""
+    rng = ctx.rng
+
+    def piece(i):
+        lon0, lat0 = -150.0 + 70.0 * i, rng.choice([-40.0, 5.0, 35.0])
+        kind = rng.choice(["tri", "quad", "patch", "fan"])
+        if kind == "tri":
+            xyz = np.array([meshes._ll(lon0, lat0), meshes._ll(lon0 + 10, lat0), meshes._ll(lon0 + 5, lat0 + 9)])
+            return meshes.AMesh(meshes._orient([[0, 1, 2]], xyz), xyz, False, "tri")
+        if kind == "fan":
+            return meshes.fan(rng.choice([3, 4, 5]), lon0=lon0, lat0=lat0, r=9.0, full=False)
+        nx, ny = (1, 1) if kind == "quad" else (rng.choice([1, 2, 3]), rng.choice([1, 2]))
+        return meshes.patch(nx, ny, lon0=lon0, lat0=lat0)
+
+    cases = []
+    for k in (1, 2, 3):
+        for _ in range(ctx.n(1, 4)):
+            cases.append(disjoint_union([piece(i) for i in range(k)], kind=f"{k}-patches"))
+    ring = meshes.patch(3, 3)
+    ring = ring.select([i for i in range(9) if i != 4], kind="annulus")
+    for j in (0, 1, 2):
+        cases.append(disjoint_union([ring], extra_nodes=j, kind=f"annulus+{j}-unused-nodes"))
+    cases.append(disjoint_union([meshes.isolated(2)], kind="two-isolated-triangles"))
+    for m in cases:
+        if rng.random() < 0.5:
+            m = m.renumber(rng)
+        ctx.hit("euler-count(non-closed)=%d" % (m.n_node - len({tuple(sorted(e)) for f in m.faces for e in zip(f, f[1:] + f[:1])}) + m.n_face))
+        for first in READS:
+            judge(ctx, m, m.kind + "+first=" + first, first=first)
+
+
 
 
 PRE_ATTRS = ["edge_node_connectivity", "face_edge_connectivity", "edge_face_connectivity", "node_face_connectivity",
@@ -576,7 +645,8 @@ def run(ctx):
                 "isel by faces in any order / nodes / edges, chains, copy()) judged against their own face table; MPAS sample (primal and dual) with "
                 "file-supplied tables, synthetic ICON-style sources (triangle meshes, closed and with holes, whose file supplies face_edge / edge_face / "
                 "face_face one-based with 0 or -1 for a missing neighbour) and UGRID sources supplying all incidence tables, stored as int32 / int64 / float64, "
-                "explicit topologies (Grid.from_topology(**tables) / open_grid(dict)) with drawn subsets of caller-supplied tables written in a drawn (fill_value, start_index) and dtype; "
+                "k = 1..3 disconnected open patches and an annulus with unused nodes (Euler count 0..3 on NON-closed meshes); the variable read FIRST on each fresh "
+                "grid (hole_edge_indices / node_face / edge_face / face_face) is a drawn dimension, all four on every patch mesh; explicit topologies (Grid.from_topology(**tables) / open_grid(dict)) with drawn subsets of caller-supplied tables written in a drawn (fill_value, start_index) and dtype; "
                 "the SAME in-memory dataset / arrays (or file) opened 2-3 times (MPAS: primal, dual, primal): every grid judged, earlier grids re-read and re-judged, grids compared and the suite's larger sample grids (up to 3840 faces in quick, 5400 in thorough), all judged by the Lean spec; distinct = "
                 "distinct face-node table; non-trivial = more than one face")
     ctx.assumptions = ["dict/list/np.pad semantics of the Python loops are tied to the model only by this differential run",
@@ -627,6 +697,7 @@ def run(ctx):
             dl = dict(fill=TOPO_FORMS[rep][0], start=TOPO_FORMS[rep][1], store=["i64", "i32", "i64", "f64", "i32"][rep], tables=sorted(TOPO_TABLES),
                       entries=["from_topology", "open_grid", "from_topology"])
         topology_supplied(ctx, m, m.kind + "+topology-supplied", dl)
+    patches_stream(ctx)
     mpas_reopened(ctx)
     sample_files(ctx)
 
@@ -656,4 +727,4 @@ def replay(ctx, rp):
     if inp.get("ugrid_supplied"):
         ugrid_supplied(ctx, m, "replay", inp["ugrid_supplied"])
         return
-    judge(ctx, m, "replay")
+    judge(ctx, m, "replay", first=inp.get("first_read"))
